@@ -259,7 +259,25 @@ def gen_cases(chk):
             if quick and d in ("plain", "deep/er.h5/z") and (e, arg) not in (("", "h5"), ("json", None)):
                 continue
             ext.append({"dir": d, "stem": "result", "ext": e, "arg": arg})
-    return cases, ext
+    # FlowSampler(...) constructed for real with keyword arguments that can neither be serialised nor copied
+    ops = ["class", "nessai_class", "function", "lambda", "timedelta", "dtype", "module", "bound_method_with_lock",
+           "callable_object_with_lock", "lock", "file", "generator", "set", "complex", "bytes"]
+    construct = []
+    for which in ("std", "ins"):
+        base = [{"pool": "mp_pool", "callback": "bound_method_with_lock", "proposal_class": True},
+                {"pool": None, "callback": "lambda", "proposal_class": False},
+                {"pool": "pool", "callback": "callable_object_with_lock", "proposal_class": True}]
+        for _ in range(1 if quick else 8):
+            base.append({"pool": rng.choice([None, "mp_pool", "pool"]),
+                         "callback": rng.choice([None, "function", "lambda", "bound_method_with_lock",
+                                                 "callable_object_with_lock", "class"]),
+                         "proposal_class": rng.random() < 0.5})
+        for b in base:
+            b = dict(b, sampler=which,
+                     aux=[[rng.choice(KEYS[:8]) + str(j), rng.choice(ops)] for j in range(rng.randint(0, 4))],
+                     aux_list=[rng.choice(ops) for _ in range(rng.randint(0, 3))])
+            construct.append(b)
+    return cases, ext, construct
 
 
 # ------------------------------------------------------------------------------------------------
@@ -459,6 +477,24 @@ def judge_ext(c, r):
     return []
 
 
+def judge_construct(c, r):
+    """direct predicate: FlowSampler(**kwargs) with non-serialisable, non-copyable values is constructed,
+    config.json exists, parses with json.load and holds every keyword argument"""
+    tag = f"C19:config:construct:{c['sampler']}"
+    if "raised" in r:
+        return [(f"{tag}:raised:{r['raised'].split(':')[0]}",
+                 f"FlowSampler(**{r['kwargs']}) raised {r['raised']} (config.json exists: {r.get('config_exists')}) {r.get('where', '')[-200:]}")]
+    if not r.get("config_exists"):
+        return [(f"{tag}:config-missing", f"config.json was not written for kwargs {r['kwargs']}")]
+    if "load_error" in r:
+        return [(f"{tag}:does-not-load", f"config.json does not parse: {r['load_error']}")]
+    if r.get("missing"):
+        return [(f"{tag}:kwarg-missing", f"keyword arguments {r['missing']} are not in config.json")]
+    if r.get("bad"):
+        return [(f"{tag}:kwarg-differs", "; ".join(r["bad"][:3]))]
+    return []
+
+
 def judge_run(which, r):
     bad = []
     if not r.get("config_loads"):
@@ -476,9 +512,9 @@ def judge_run(which, r):
     return bad
 
 
-def run_children(chk, cases, ext):
+def run_children(chk, cases, ext, construct=()):
     wd = os.path.join(chk.build, "io")
-    jobs = {"gen": {"gen": cases, "ext": ext, "workdir": wd},
+    jobs = {"gen": {"gen": cases, "ext": ext, "construct": list(construct), "workdir": wd},
             "std": {"sampler": "std", "workdir": os.path.join(chk.build, "runs"), "cap": 400},
             "ins": {"sampler": "ins", "workdir": os.path.join(chk.build, "runs"), "cap": 400}}
 
@@ -522,11 +558,11 @@ def run(chk):
     h5_term = "h5_now" if h5 is not None else "h5_today"
     defs = (f"Definition ladder_now : ladder := {lad}.\n" if lad is not None else "") + \
            (f"Definition h5_now : h5_sk := {h5}.\n" if h5 is not None else "")
-    cases, ext = gen_cases(chk)
-    res = run_children(chk, cases, ext)
+    cases, ext, construct = gen_cases(chk)
+    res = run_children(chk, cases, ext, construct)
     if res.get("gen") is None:
         return
-    rgen, rext = res["gen"]["gen"], res["gen"]["ext"]
+    rgen, rext, rcon = res["gen"]["gen"], res["gen"]["ext"], res["gen"].get("construct", [])
     # ---- direct predicate -----------------------------------------------------------------------
     for c, r in zip(cases, rgen):
         chk.count("stream:" + c["stream"])
@@ -544,6 +580,12 @@ def run(chk):
             chk.nontriv(("ext", json.dumps(c)))
         for key, what in judge_ext(c, r):
             chk.fail(key, what, {"kind": "ext", "case": c, "observed": r})
+    for c, r in zip(construct, rcon):
+        chk.evaluations += 1
+        chk.count("construct:" + c["sampler"] + (":user-pool" if c.get("pool") == "mp_pool" else ""))
+        chk.nontriv(("construct", json.dumps(c)))
+        for key, what in judge_construct(c, r):
+            chk.fail(key, what, {"kind": "construct", "case": c, "observed": {k: v for k, v in r.items() if k not in ("desc", "obs")}})
     runs = {}
     for which in ("std", "ins"):
         r = res.get(which)
@@ -576,6 +618,10 @@ def run(chk):
                     continue
                 obs = f"(Some {t})"
             hl.append(f"({cDict(tree['v'])}, {obs})")
+
+    for c, r in zip(construct, rcon):
+        if "desc" in r:
+            jl.append(f"({cTree(r['desc'])}, (Some ({cJ(r['obs'])})))")
 
     def shard(items, name, typ, chkfun, size):
         bad, okall, errs = [], True, ""
@@ -668,6 +714,8 @@ def replay(data):
         job = {"sampler": rp["sampler"], "workdir": wd, "cap": 400}
     elif rp["kind"] == "ext":
         job = {"gen": [], "ext": [rp["case"]], "workdir": wd}
+    elif rp["kind"] == "construct":
+        job = {"gen": [], "ext": [], "construct": [rp["case"]], "workdir": wd}
     else:
         job = {"gen": [rp["case"]], "ext": [], "workdir": wd}
     r = subprocess.run(["timeout", "600", common.PY, os.path.join(common.VERIF, "harness", "c19_child.py")],
@@ -677,6 +725,8 @@ def replay(data):
         bad = judge_run(rp["sampler"], out["sampler"])
     elif rp["kind"] == "ext":
         bad = judge_ext(rp["case"], out["ext"][0])
+    elif rp["kind"] == "construct":
+        bad = judge_construct(rp["case"], out["construct"][0])
     else:
         bad = judge_gen(rp["case"], out["gen"][0])
     print(json.dumps({"failures": bad}, indent=1)[:3000])
